@@ -1710,7 +1710,10 @@ fn observe_typeset(table: &[TSpecD], ln: bool, portable: bool, args: &[String]) 
         let ch = |c: char| enc_str(&c.to_string());
         let on = |s: OptState| s == OptState::On;
         match ty::parse(&specs, mode, fields) {
-            Err(e) => match e {
+            Err(e) => {
+              // the report (and `ParseError::field`) is built as the built-in would, its text is not compared
+              let _ = e.to_report();
+              match e {
                 ty::ParseError::UnknownShortOption(c, _) => format!("err:unknownShort:{}", ch(c)),
                 ty::ParseError::UnknownLongOption(_) => "err:unknownLong".into(),
                 ty::ParseError::AmbiguousLongOption(_) => "err:ambiguousLong".into(),
@@ -1718,7 +1721,8 @@ fn observe_typeset(table: &[TSpecD], ln: bool, portable: bool, args: &[String]) 
                 ty::ParseError::UncancelableShortOption(c, _) => format!("err:uncancelableShort:{}", ch(c)),
                 ty::ParseError::UncancelableLongOption(_) => "err:uncancelableLong".into(),
                 _ => "err:other".into(),
-            },
+              }
+            }
             Ok((options, operands)) => {
                 let occs = options.iter().map(|o| y_occ(o.spec.short, ty_attr(o.spec.attr), on(o.state))).collect::<Vec<_>>().join(";");
                 let ops = show_strs(operands.iter().map(|f| f.value.as_str()));
